@@ -74,11 +74,13 @@ structure WideB (s : State) : Prop where
   due : ∀ e ∈ s.executeBus.buffer, e.1 ≤ s.cycles + 1
   len : s.executeBus.buffer.length ≤ 2
   br : BrHead (s.executeBus.buffer.map (·.2))
+  bl : s.executeBus.bufferLength = 2
 
 /-- … after `Connect`: everything has moved to the queue -/
 structure WideP (s : State) : Prop where
   xb : s.executeBus.buffer = []
   br : BrHead s.executeBus.queue
+  bl : s.executeBus.bufferLength = 2
 
 /-- … while the execute units run (`i` units done): a branch in the queue is its head and only the first unit sees it; the
 queue empties as the units take their runners -/
@@ -88,6 +90,7 @@ structure WideM (s : State) (i : Nat) : Prop where
   due : ∀ e ∈ s.executeBus.buffer, e.1 ≤ s.cycles + 1
   len : s.executeBus.buffer.length ≤ 2
   br : BrHead (s.executeBus.buffer.map (·.2))
+  bl : s.executeBus.bufferLength = 2
 
 theorem brHead_cons {x : Runner} {q : List Runner} (h : BrHead (x :: q)) : ∀ y ∈ q, ¬ isBr y := by
   intro y hy hb
@@ -129,12 +132,13 @@ structure EuKeep (s s' : State) : Prop where
   fu : s'.fu = s.fu
   decodeBus : s'.decodeBus = s.decodeBus
   wbl : s'.writeBus.bufferLength = s.writeBus.bufferLength
+  xbl : s'.executeBus.bufferLength = s.executeBus.bufferLength
 
-theorem EuKeep.refl (s : State) : EuKeep s s := ⟨rfl, rfl, rfl, rfl, rfl, rfl, rfl, rfl, rfl, Nat.le_refl _, rfl, rfl, rfl, rfl⟩
+theorem EuKeep.refl (s : State) : EuKeep s s := ⟨rfl, rfl, rfl, rfl, rfl, rfl, rfl, rfl, rfl, Nat.le_refl _, rfl, rfl, rfl, rfl, rfl⟩
 theorem EuKeep.trans {a b c : State} (h1 : EuKeep a b) (h2 : EuKeep b c) : EuKeep a c :=
   ⟨h2.wq.trans h1.wq, h2.wus.trans h1.wus, h2.eul.trans h1.eul, h2.cyc.trans h1.cyc, h2.pend.trans h1.pend,
    h2.mmu.trans h1.mmu, h2.mode.trans h1.mode, h2.wql.trans h1.wql, h2.xql.trans h1.xql, Nat.le_trans h2.xq h1.xq,
-   h2.ctx.trans h1.ctx, h2.fu.trans h1.fu, h2.decodeBus.trans h1.decodeBus, h2.wbl.trans h1.wbl⟩
+   h2.ctx.trans h1.ctx, h2.fu.trans h1.fu, h2.decodeBus.trans h1.decodeBus, h2.wbl.trans h1.wbl, h2.xbl.trans h1.xbl⟩
 
 theorem runners_cons (s : State) (x : Runner) (q : List Runner) (h : s.executeBus.queue = x :: q) :
     runners s = x :: runners { s with executeBus := { s.executeBus with queue := q } } := by
@@ -149,15 +153,29 @@ structure Retired (app : App) (s s' : State) (a : Arch) : Prop where
   keep : EuKeep s s'
 
 /-- an execute unit has executed a taken conditional branch whose target is not the next instruction: `a'` is the
-architectural state behind the branch, everything on the write bus is older than or is the branch (it will be kept) -/
+architectural state behind the branch.  The results on the write bus that the drain will keep (`kept from_`) make up the
+architectural register file; what sits in the write-bus queue is older than the branch; the runners still on the execute bus
+are the instructions behind the branch (wrong path).  Execute units that run after the flushing one keep all this. -/
 structure FlushNow (app : App) (s s' : State) (a' : Arch) (from_ : Word) : Prop where
-  back : Back s'.ctx s'.writeBus.inside s'.executeBus.inside a'
-  allKept : ∀ ec ∈ s'.writeBus.inside, kept from_ ec = true
+  regsT : applyW (s'.writeBus.inside.filter (kept from_)) s'.ctx.Registers = a'.ctx.Registers
+  nomem : ∀ ec ∈ s'.writeBus.inside, ec.execution.MemoryChange = false
+  qKept : ∀ ec ∈ s'.writeBus.queue, kept from_ ec = true
+  mem : a'.ctx.Memory = s'.ctx.Memory
+  ratS : s'.ctx.rat = false
+  txS : s'.ctx.Transaction.entries = []
+  ratA : a'.ctx.rat = false
+  txA : a'.ctx.Transaction.entries = []
   npc : ∃ n', a'.pc = pcOf n' ∧ n' ≤ app.instrs.length
   eus : ∀ eu ∈ s'.eus, eu.co = .none ∧ eu.memory = []
   keep : EuKeep s s'
   cond : ¬ NoCond app
   k : 1 ≤ s.eus.length
+  room : s'.writeBus.buffer.length + s'.executeBus.queue.length ≤ 2
+  wbl : s'.writeBus.bufferLength = 2
+  chain : ∃ nb m, from_ = pcOf nb ∧ nb < m ∧ Chain app m (runners s')
+  rseq : ∀ r ∈ runners s', r.seq = r.pc
+  noRet : ∀ y ∈ s'.executeBus.queue, ¬ isRet y
+  sid0 : s'.ctx.sequenceID = 0
 
 theorem ite_pair_snd {α β : Type} (c : Prop) [Decidable c] (a b : α) (f : β) : (if c then (a, f) else (b, f)).2 = f := by
   split <;> rfl
@@ -180,7 +198,8 @@ theorem euCycle_sim (app : App) (hp : ProgG app) (s s' : State) (a : Arch) (i : 
     (out = .none ∧ ∃ a', (a' = a ∨ ∃ c, stepArch Proofs.Mvp4.dc app a = .next a' c) ∧ Mid app s' a' (i + 1) ∧ EuKeep s s') ∨
     (out = .err ∧ ∃ c, stepArch Proofs.Mvp4.dc app a = .halt .err c) ∨
     (out = .ret ∧ Retired app s s' a) ∨
-    (∃ a' from_, out = .flush from_ a'.pc ∧ (∃ c, stepArch Proofs.Mvp4.dc app a = .next a' c) ∧ FlushNow app s s' a' from_) := by
+    (∃ a' from_, out = .flush from_ a'.pc ∧ (∃ c, stepArch Proofs.Mvp4.dc app a = .next a' c) ∧ FlushNow app s s' a' from_ ∧
+      (WideM s i → ∀ y ∈ s'.executeBus.queue, ¬ isBr y)) := by
   obtain ⟨eu, hget⟩ := get_lt s.eus i hi
   obtain ⟨hco, hmem⟩ := hm.eus eu (List.mem_of_getElem? hget)
   have hK : 1 ≤ s.eus.length := by omega
@@ -192,8 +211,12 @@ theorem euCycle_sim (app : App) (hp : ProgG app) (s s' : State) (a : Arch) (i : 
     obtain ⟨rfl, rfl⟩ := h
     left
     refine ⟨rfl, a, Or.inl rfl, ?_, EuKeep.refl _⟩
-    refine ⟨hm.front, hm.back, hm.eus, Nat.le_succ_of_le hm.wbi, hm.room, hm.stamps, hm.wbl, ?_, hm.retBuf, hm.seqs, hm.k1⟩
-    intro _ x hx; simp only [hq] at hx; cases hx
+    refine ⟨hm.front, hm.back, hm.eus, Nat.le_succ_of_le hm.wbi, hm.room, hm.stamps, hm.wbl, ?_, hm.retBuf, hm.seqs, ?_⟩
+    · intro _ x hx; simp only [hq] at hx; cases hx
+    · rcases hm.k1 with h1 | h1 | h1
+      · exact Or.inl h1
+      · exact Or.inr (Or.inl h1)
+      · exact Or.inr (Or.inr ⟨(fun x hx => by simp only [hq] at hx; cases hx), Or.inl hq, h1.due, h1.len, h1.br, h1.bl⟩)
   | cons x q =>
     simp only [get_some _ x q hq] at h
     obtain ⟨n0, hpc, hf⟩ := hm.front
@@ -252,9 +275,22 @@ theorem euCycle_sim (app : App) (hp : ProgG app) (s s' : State) (a : Arch) (i : 
       unfold afterExec
       refine ⟨⟨n0 + 1, hpc', ?_⟩, ?_, heus', ?_, ?_, ?_, hm.wbl, ?_, ?_, ?_, ?_⟩
       rotate_right
-      · rcases hm.k1 with h1 | h1
+      · rcases hm.k1 with h1 | h1 | h1
         · exact Or.inl (by simp only [List.length_set]; exact h1)
-        · exact Or.inr h1
+        · exact Or.inr (Or.inl h1)
+        · refine Or.inr (Or.inr ⟨?_, ?_, h1.due, h1.len, h1.br, h1.bl⟩)
+          · intro y hy hby
+            exfalso
+            obtain ⟨_, q', hq', hnb⟩ := h1.brq y (by rw [hq]; exact List.mem_cons_of_mem _ hy) hby
+            rw [hq] at hq'
+            simp only [List.cons.injEq] at hq'
+            obtain ⟨_, rfl⟩ := hq'
+            exact hnb y hy hby
+          · right
+            show q.length + (i + 1) ≤ 2
+            rcases h1.drain with hd | hd
+            · rw [hq] at hd; cases hd
+            · rw [hq] at hd; simp only [List.length_cons] at hd; omega
       · have hlen : (runners s).length = (runners { s with executeBus := { s.executeBus with queue := q } }).length + 1 := by
           rw [hrun]; simp only [List.length_cons]
         refine ⟨hchain', ?_, ?_, hf.clean, hf.dlen, hf.duOk⟩
@@ -312,13 +348,13 @@ theorem euCycle_sim (app : App) (hp : ProgG app) (s s' : State) (a : Arch) (i : 
           exact this
         subst hq0
         exact ⟨rfl, hhalt, hback.dropHead, rfl, heus', ⟨rfl, rfl, by simp only [List.length_set], rfl, rfl, rfl, rfl, rfl, rfl,
-          by simp only [hq, List.length_cons, List.length_nil]; omega, rfl, rfl, rfl, rfl⟩⟩
+          by simp only [hq, List.length_cons, List.length_nil]; omega, rfl, rfl, rfl, rfl, rfl⟩⟩
       | false =>
         obtain ⟨a', n', hstep, hpc', hn'le, hback', hmc, hnf1, hnf2⟩ := hexe e hr hret
         simp only [hr, hret, hmc, Bool.false_eq_true, if_false, bind, Except.bind, pure, Except.pure, hub] at h
         have hkeep : ∀ bu : BranchUnit, EuKeep s (afterExec s i x q bu e) := fun bu =>
           ⟨rfl, rfl, by simp only [afterExec, List.length_set], rfl, rfl, rfl, rfl, rfl, rfl,
-           by simp only [afterExec, hq, List.length_cons]; omega, rfl, rfl, rfl, rfl⟩
+           by simp only [afterExec, hq, List.length_cons]; omega, rfl, rfl, rfl, rfl, rfl⟩
         cases hpcc : e.PcChange with
         | false =>
           have hn' := hnf1 hpcc
@@ -346,19 +382,40 @@ theorem euCycle_sim (app : App) (hp : ProgG app) (s s' : State) (a : Arch) (i : 
               rcases hm.seqs.sid with h0 | h0
               · exact h0
               · exact absurd h0 hncond
-            refine ⟨a', x.pc, by rw [hpc', hnext], hstep, ⟨by simp only [inside_add]; exact hback', ?_, ⟨n', hpc', hn'le⟩, heus', hkeep _, hncond, hK⟩⟩
-            intro ec hec
-            simp only [inside_add] at hec
-            simp only [kept, Bool.not_eq_true', Bool.and_eq_false_iff]
-            right
-            simp only [BitVec.slt, decide_eq_false_iff_not, Int.not_lt]
-            rcases List.mem_append.mp hec with hec | hec
-            · have := hm.seqs.wseq hncond h0 ec hec
-              rw [hpc, ← hxok.1] at this
-              omega
-            · simp only [List.mem_singleton] at hec; subst hec
-              have h1 := hm.seqs.rseq hncond h0 x (by rw [hrun]; exact List.mem_cons_self)
-              simp only [ecOf, h1]; exact Int.le_refl _
+            have hallKept : ∀ ec ∈ s.writeBus.inside ++ [ecOf x e], kept x.pc ec = true := by
+              intro ec hec
+              simp only [kept, Bool.not_eq_true', Bool.and_eq_false_iff]
+              right
+              simp only [BitVec.slt, decide_eq_false_iff_not, Int.not_lt]
+              rcases List.mem_append.mp hec with hec | hec
+              · have := hm.seqs.wseq hncond h0 ec hec
+                rw [hpc, ← hxok.1] at this
+                omega
+              · simp only [List.mem_singleton] at hec; subst hec
+                have h1 := hm.seqs.rseq hncond h0 x (by rw [hrun]; exact List.mem_cons_self)
+                simp only [ecOf, h1]; exact Int.le_refl _
+            have hbk : Back s.ctx (s.writeBus.inside ++ [ecOf x e]) ({ s.executeBus with queue := q } : BufferedBus Runner).inside a' := hback'
+            refine ⟨a', x.pc, by rw [hpc', hnext], hstep, ?_, ?_⟩
+            · refine ⟨?_, ?_, ?_, hbk.mem, hbk.ratS, hbk.txS, hbk.ratA, hbk.txA, ⟨n', hpc', hn'le⟩, heus', hkeep _, hncond, hK, ?_, hm.wbl,
+                ⟨n0, n0 + 1, hxok.1, Nat.lt_succ_self _, hchain'⟩, fun r hr => hm.seqs.rseq hncond h0 r (hrunS hr),
+                fun y hy => hnoret y hy, h0⟩
+              · show applyW ((s.writeBus.add (ecOf x e) s.cycles).inside.filter (kept x.pc)) s.ctx.Registers = a'.ctx.Registers
+                rw [inside_add, List.filter_eq_self.mpr hallKept]; exact hbk.regs.symm
+              · show ∀ ec ∈ (s.writeBus.add (ecOf x e) s.cycles).inside, ec.execution.MemoryChange = false
+                rw [inside_add]; exact hbk.nomem
+              · intro ec hec
+                exact hallKept ec (List.mem_append_left _ (by simp only [BufferedBus.inside]; exact List.mem_append_left _ hec))
+              · show (s.writeBus.add (ecOf x e) s.cycles).buffer.length + q.length ≤ 2
+                simp only [BufferedBus.add, List.length_append, List.length_cons, List.length_nil]
+                have := hm.room; rw [hq] at this; simp only [List.length_cons] at this; omega
+            · intro hw y hy hby
+              obtain ⟨_, q', hq', hnb⟩ := hw.brq x (by rw [hq]; exact List.mem_cons_self) (by
+                show x.instr.instructionType.IsBranch = true
+                simp only [Gen.InstructionType.IsBranch, hcb, Bool.or_true])
+              rw [hq] at hq'
+              simp only [List.cons.injEq, true_and] at hq'
+              subst hq'
+              exact hnb y hy hby
           · -- the branch is taken to the next instruction: no flush
             have heq : x.pc + 4#32 = e.NextPc := by simpa using hfl
             left
@@ -381,6 +438,136 @@ theorem eus_noop (app : App) : ∀ (n i : Nat) (s : State) (acc : EuAcc), i + n 
       simp only [hget, hco, get_none _ hq, pure, Except.pure]
     simp only [eusCycle, bind, Except.bind, h1]
     exact ih (i + 1) s acc (by omega) hidle hq
+
+theorem pcOf_ne_m1 (n : Nat) (h : n < 2 ^ 20) : (pcOf n != BitVec.ofInt 32 (-1)) = true := by
+  simp only [bne_iff_ne, ne_eq]
+  intro hc
+  have := congrArg BitVec.toInt hc
+  rw [pcOf_toInt n h] at this
+  have h1 : (BitVec.ofInt 32 (-1)).toInt = -1 := by decide
+  omega
+
+/-- an execute unit that runs after the flushing one: it finds nothing, or it executes a wrong-path runner whose result
+will not be kept -/
+theorem euCycle_wrong (app : App) (hp : ProgG app) (s0 s s' : State) (a' : Arch) (from_ : Word) (i : Nat) (out : EuOut)
+    (hf : FlushNow app s0 s a' from_) (hnb : ∀ y ∈ s.executeBus.queue, ¬ isBr y) (hi : i < s.eus.length)
+    (h : euCycle app s i = .ok (s', out)) :
+    out = .none ∧ FlushNow app s0 s' a' from_ ∧ (∀ y ∈ s'.executeBus.queue, ¬ isBr y) := by
+  obtain ⟨eu, hget⟩ := get_lt s.eus i hi
+  obtain ⟨hco, hmem⟩ := hf.eus eu (List.mem_of_getElem? hget)
+  unfold euCycle at h
+  simp only [hget, hco] at h
+  cases hq : s.executeBus.queue with
+  | nil =>
+    simp only [get_none _ hq, pure, Except.pure, Except.ok.injEq, Prod.mk.injEq] at h
+    obtain ⟨rfl, rfl⟩ := h
+    exact ⟨rfl, hf, hnb⟩
+  | cons x q =>
+    simp only [get_some _ x q hq] at h
+    have hsm := hp.small
+    obtain ⟨nb, m, hfrom, hlt, hchain⟩ := hf.chain
+    have hrun := runners_cons s x q hq
+    rw [hrun] at hchain
+    obtain ⟨hxok, hchain'⟩ := hchain
+    have hxmem : x.instr ∈ app.instrs := List.mem_of_getElem? hxok.2
+    have hgx := g_of_get app hp.cls m x.instr hxok.2
+    have hm' : m < app.instrs.length := by
+      rcases Nat.lt_or_ge m app.instrs.length with h' | h'
+      · exact h'
+      · have := hxok.2; rw [List.getElem?_eq_none h'] at this; cases this
+    have hndr : isDivRem x.instr.instructionType = false := by
+      have hc := hp.cls
+      simp only [ProvedClass, Bool.and_eq_true, Bool.or_eq_true, List.all_eq_true, Bool.not_eq_true'] at hc
+      rcases hc.2 with h1 | h1
+      · exact h1 x.instr hxmem
+      · exact absurd (by simp only [NoCond, List.all_eq_true, Bool.not_eq_true']; exact h1) hf.cond
+    have hxnb : x.instr.instructionType.IsBranch = false := by
+      have := hnb x (by rw [hq]; exact List.mem_cons_self)
+      simpa [isBr] using this
+    have hxnr : ¬ isRet x := hf.noRet x (by rw [hq]; exact List.mem_cons_self)
+    have hcan : s.writeBus.canAdd = true := by
+      have := hf.room; rw [hq] at this; simp only [List.length_cons] at this
+      simp only [BufferedBus.canAdd, hf.wbl, bne_iff_ne, ne_eq]; omega
+    have hbr := hxnb
+    simp only [Gen.InstructionType.IsBranch, Bool.or_eq_false_iff] at hbr
+    obtain ⟨hub, hcb⟩ := hbr
+    unfold coPrepareRun at h
+    simp only [hcan, Bool.not_true, Bool.false_eq_true, if_false, buAssert, hub, hcb, g_memoryRead app x.instr hgx,
+      List.isEmpty_nil, Bool.not_true] at h
+    unfold coRun at h
+    simp only [hmem, setEu] at h
+    obtain ⟨e, he⟩ := g_run_ok app x.instr hgx hndr s.ctx x.pc [] 0#32
+    obtain ⟨hmc, hret, hpcc⟩ := g_run app x.instr hgx s.ctx x.pc [] 0#32 e he
+    have hret' : e.Return = false := by
+      cases hr : e.Return with
+      | false => rfl
+      | true => exact absurd (hret hr) hxnr
+    have hpc' : e.PcChange = false := by
+      cases hr : e.PcChange with
+      | false => rfl
+      | true => have := (hpcc hr).1; rw [hcb] at this; cases this
+    simp only [he, hret', hmc, hpc', Bool.false_eq_true, if_false, bind, Except.bind, pure, Except.pure, hub,
+      Except.ok.injEq, Prod.mk.injEq] at h
+    obtain ⟨rfl, rfl⟩ := h
+    have hnk : kept from_ (ecOf x e) = false := by
+      have h1 := hf.rseq x (by rw [hrun]; exact List.mem_cons_self)
+      simp only [kept, ecOf, h1, hxok.1, hfrom, pcOf_ne_m1 nb (by omega), Bool.true_and, Bool.not_eq_false', BitVec.slt,
+        decide_eq_true_eq]
+      exact pcOf_lt nb m (by omega) hlt
+    have hrunS : runners { s with executeBus := { s.executeBus with queue := q } } ⊆ runners s := by
+      rw [hrun]; exact fun r hr => List.mem_cons_of_mem _ hr
+    refine ⟨rfl, ?_, fun y hy => hnb y (by rw [hq]; exact List.mem_cons_of_mem _ hy)⟩
+    refine ⟨?_, ?_, hf.qKept, hf.mem, hf.ratS, hf.txS, hf.ratA, hf.txA, hf.npc, ?_, ?_, hf.cond, hf.k, ?_, hf.wbl,
+      ⟨nb, m + 1, hfrom, by omega, hchain'⟩, fun r hr => hf.rseq r (hrunS hr),
+      fun y hy => hf.noRet y (by rw [hq]; exact List.mem_cons_of_mem _ hy), hf.sid0⟩
+    · show applyW ((s.writeBus.add (ecOf x e) s.cycles).inside.filter (kept from_)) s.ctx.Registers = a'.ctx.Registers
+      rw [inside_add, List.filter_append]
+      simp only [List.filter_cons, hnk, Bool.false_eq_true, if_false, List.filter_nil, List.append_nil]
+      exact hf.regsT
+    · show ∀ ec ∈ (s.writeBus.add (ecOf x e) s.cycles).inside, ec.execution.MemoryChange = false
+      rw [inside_add]
+      intro ec hec
+      rcases List.mem_append.mp hec with hec | hec
+      · exact hf.nomem ec hec
+      · simp only [List.mem_singleton] at hec; subst hec; exact hmc
+    · intro eu' hmem'
+      rcases List.mem_or_eq_of_mem_set hmem' with h1 | h1
+      · exact hf.eus eu' h1
+      · subst h1; exact ⟨rfl, rfl⟩
+    · exact hf.keep.trans ⟨rfl, rfl, by simp only [List.length_set], rfl, rfl, rfl, rfl, rfl, rfl,
+        by simp only [hq, List.length_cons]; omega, rfl, rfl, rfl, rfl, rfl⟩
+    · show (s.writeBus.add (ecOf x e) s.cycles).buffer.length + q.length ≤ 2
+      simp only [BufferedBus.add, List.length_append, List.length_cons, List.length_nil]
+      have := hf.room; rw [hq] at this; simp only [List.length_cons] at this; omega
+
+theorem FlushNow.pre {app : App} {s0 s s' : State} {a' : Arch} {from_ : Word} (h : FlushNow app s s' a' from_)
+    (hk : EuKeep s0 s) : FlushNow app s0 s' a' from_ :=
+  ⟨h.regsT, h.nomem, h.qKept, h.mem, h.ratS, h.txS, h.ratA, h.txA, h.npc, h.eus, hk.trans h.keep, h.cond,
+   by rw [← hk.eul]; exact h.k, h.room, h.wbl, h.chain, h.rseq, h.noRet, h.sid0⟩
+
+/-- the execute units behind the flushing one -/
+theorem eus_wrong (app : App) (hp : ProgG app) (s0 : State) (a' : Arch) (from_ : Word) : ∀ (n i : Nat) (s s' : State) (acc acc' : EuAcc),
+    i + n = s.eus.length → FlushNow app s0 s a' from_ → (∀ y ∈ s.executeBus.queue, ¬ isBr y) →
+    eusCycle app n i s acc = .ok (s', acc') → acc' = acc ∧ FlushNow app s0 s' a' from_ := by
+  intro n
+  induction n with
+  | zero =>
+    intro i s s' acc acc' _ hf _ h
+    simp only [eusCycle, pure, Except.pure, Except.ok.injEq, Prod.mk.injEq] at h
+    obtain ⟨rfl, rfl⟩ := h
+    exact ⟨rfl, hf⟩
+  | succ n ih =>
+    intro i s s' acc acc' hlen hf hnb h
+    simp only [eusCycle, bind, Except.bind] at h
+    split at h
+    · cases h
+    · rename_i v hv
+      obtain ⟨s1, out⟩ := v
+      obtain ⟨rfl, hf1, hnb1⟩ := euCycle_wrong app hp s0 s s1 a' from_ i out hf hnb (by omega) hv
+      simp only at h
+      have hl : s1.eus.length = s.eus.length := by
+        have := hf1.keep.eul; have := hf.keep.eul; omega
+      exact ih (i + 1) s1 s' acc acc' (by omega) hf1 hnb1 h
 
 theorem max_zero_pcOf (n : Nat) (h : n < 2 ^ 20) : (if BitVec.slt (0 : Word) (pcOf n) = true then pcOf n else 0) = pcOf n := by
   by_cases hn : n = 0
@@ -415,7 +602,7 @@ theorem eusCycle_sim (app : App) (hp : ProgG app) (a0 : Arch) : ∀ (n i : Nat) 
     · rename_i v hv
       obtain ⟨s1, out⟩ := v
       rcases euCycle_sim app hp s s1 a i out hm (by omega) hv with
-        ⟨rfl, a1, hstep, hm1, hk1⟩ | ⟨rfl, c, hc⟩ | ⟨rfl, hret⟩ | ⟨a1, from_, rfl, ⟨c, hc⟩, hfl⟩
+        ⟨rfl, a1, hstep, hm1, hk1⟩ | ⟨rfl, c, hc⟩ | ⟨rfl, hret⟩ | ⟨a1, from_, rfl, ⟨c, hc⟩, hfl, hnbw⟩
       · simp only at h
         have hk' : ∃ k1, Proofs.Mvp4.seqIter app k1 a0 = some a1 := by
           rcases hstep with rfl | ⟨c, hc⟩
@@ -432,7 +619,7 @@ theorem eusCycle_sim (app : App) (hp : ProgG app) (a0 : Arch) : ∀ (n i : Nat) 
         · right; right; left
           exact ⟨e1, k2, a2, e2, ⟨e3.halt, e3.back, e3.xq, e3.eus, hk1.trans e3.keep⟩⟩
         · right; right; right
-          exact ⟨a2, f2, e1, k2, e2, ⟨e3.back, e3.allKept, e3.npc, e3.eus, hk1.trans e3.keep, e3.cond, by rw [← hk1.eul]; exact e3.k⟩⟩
+          exact ⟨a2, f2, e1, k2, e2, e3.pre hk1⟩
       · simp only [pure, Except.pure, Except.ok.injEq, Prod.mk.injEq] at h
         obtain ⟨_, rfl⟩ := h
         right; left; exact ⟨rfl, k, a, hk, c, hc⟩
@@ -442,20 +629,23 @@ theorem eusCycle_sim (app : App) (hp : ProgG app) (a0 : Arch) : ∀ (n i : Nat) 
         obtain ⟨rfl, rfl⟩ := h
         right; right; left
         exact ⟨by rw [hacc], k, a, hk, hret⟩
-      · -- a flush: there is no further execute unit
-        have hn : n = 0 := by
-          rcases hm.k1 with h1 | h1
-          · omega
-          · exact absurd h1 hfl.cond
-        subst hn
-        simp only [eusCycle, pure, Except.pure, Except.ok.injEq, Prod.mk.injEq] at h
-        obtain ⟨rfl, rfl⟩ := h
-        right; right; right
+      · -- a flush: the remaining execute units (if any) execute wrong-path runners
         obtain ⟨n', hn', hle⟩ := hfl.npc
         have hsm := hp.small
-        refine ⟨a1, from_, ?_, k + 1, Proofs.Mvp4.seqIter_succ hk hc, hfl⟩
-        rw [hacc]
-        simp only [hn', max_zero_pcOf n' (by omega)]
+        subst hacc
+        simp only [hn', max_zero_pcOf n' (by omega)] at h
+        rw [← hn'] at h
+        rcases hm.k1 with h1 | h1 | h1
+        · have hn : n = 0 := by omega
+          subst hn
+          simp only [eusCycle, pure, Except.pure, Except.ok.injEq, Prod.mk.injEq] at h
+          obtain ⟨rfl, rfl⟩ := h
+          right; right; right
+          exact ⟨a1, from_, rfl, k + 1, Proofs.Mvp4.seqIter_succ hk hc, hfl⟩
+        · exact absurd h1 hfl.cond
+        · obtain ⟨e1, e2⟩ := eus_wrong app hp s a1 from_ n (i + 1) s1 s' _ acc' (by rw [hfl.keep.eul]; omega) hfl (hnbw h1) h
+          right; right; right
+          exact ⟨a1, from_, e1, k + 1, Proofs.Mvp4.seqIter_succ hk hc, e2⟩
 
 /-! ### the write units -/
 
@@ -579,6 +769,12 @@ theorem issued_back {c p : Int} {pushed : List Runner} {x y : Model.Context × B
     obtain ⟨i1, i2, i3, i4⟩ := ih this
     exact ⟨i1, i2, i3, by rw [i4]; simp only [inside_add, List.append_assoc, List.singleton_append]⟩
 
+theorem issued_bl {c p : Int} {pushed : List Runner} {x y : Model.Context × BufferedBus Runner} (h : Issued c p pushed x y) :
+    y.2.bufferLength = x.2.bufferLength := by
+  induction h with
+  | nil p x => rfl
+  | cons p r rs ctx bus y _ _ _ _ ih => exact ih
+
 /-- a `ret` issued in cycle `c` is alone on the execute bus -/
 theorem issued_ret {c p : Int} {pushed : List Runner} {x y : Model.Context × BufferedBus Runner}
     (h : Issued c p pushed x y) : (∀ e ∈ x.2.buffer, ¬ isRet e.2) →
@@ -626,7 +822,7 @@ structure RelG (app : App) (s : State) (a : Arch) : Prop where
   /-- a `ret` issued in the last cycle is alone on the execute bus and due -/
   retBuf : ∀ e ∈ s.executeBus.buffer, isRet e.2 → s.executeBus.queue = [] ∧ s.executeBus.buffer = [(s.cycles + 1, e.2)]
   seqs : Seqs app s a
-  k1 : s.eus.length ≤ 1 ∨ NoCond app
+  k1 : s.eus.length ≤ 1 ∨ NoCond app ∨ WideB s
 
 /-- the state between two ticks of the drain after a `ret` -/
 structure RelB (app : App) (s : State) (a : Arch) : Prop where
@@ -656,7 +852,7 @@ structure FFacts (app : App) (s : State) (a' : Arch) (from_ pc : Word) : Prop wh
   l1d : s.mmu.l1d.lines = []
   clean : s.fu.toCleanPending = false
   sid : s.ctx.sequenceID = 0 ∨ NoCond app
-  k1 : s.eus.length ≤ 1 ∨ NoCond app
+  k1 : s.eus.length ≤ 1 ∨ NoCond app ∨ s.executeBus.bufferLength = 2
   wk : 1 ≤ s.wus.length
 
 /-- the state between two ticks of the drain before a flush -/
@@ -680,7 +876,7 @@ theorem FFacts.keep {app : App} {s s' : State} {a' : Arch} {from_ pc : Word} (h 
   ⟨hi, h.npc, h.pceq, by rw [k.mem]; exact h.mem, by rw [k.rat]; exact h.ratS, by rw [k.tx]; exact h.txS, h.ratA, h.txA,
    by rw [k.eus]; exact h.eusM, by rw [k.eus, k.wus]; exact h.eqw, by rw [k.wql]; exact h.wql, by rw [k.wbl]; exact h.wbl,
    by rw [k.executeBus]; exact h.xql, by rw [k.decodeBus]; exact h.dlen, by rw [k.mmu]; exact h.l1d, by rw [k.fu]; exact h.clean,
-   by rw [k.sid]; exact h.sid, by rw [k.eus]; exact h.k1, by rw [k.wus]; exact h.wk⟩
+   by rw [k.sid]; exact h.sid, by rw [k.eus, k.executeBus]; exact h.k1, by rw [k.wus]; exact h.wk⟩
 
 /-- `m.flush(pc)` after a completed drain: the relation between normal ticks holds for the state behind the branch -/
 theorem flushAll_rel (app : App) (hsm : app.instrs.length < 250) (s : State) (a' : Arch) (from_ pc : Word)
@@ -726,8 +922,15 @@ theorem flushAll_rel (app : App) (hsm : app.instrs.length < 250) (s : State) (a'
   · refine ⟨h.sid, ?_, ?_⟩
     · intro _ _ r hr; rw [hrn] at hr; cases hr
     · intro _ _ ec hec; rw [show (flushAll s pc).writeBus.inside = [] from hwb] at hec; cases hec
-  · show ((flushAll s pc).eus).length ≤ 1 ∨ NoCond app
-    simp only [flushAll, List.length_map]; exact h.k1
+  · rcases h.k1 with h1 | h1 | h1
+    · exact Or.inl (by (show ((flushAll s pc).eus).length ≤ 1); simp only [flushAll, List.length_map]; exact h1)
+    · exact Or.inr (Or.inl h1)
+    · refine Or.inr (Or.inr ⟨?_, ?_, ?_, ?_, ?_⟩)
+      · simp [flushAll, BufferedBus.clean]
+      · intro e he; simp [flushAll, BufferedBus.clean] at he
+      · simp [flushAll, BufferedBus.clean]
+      · intro pre b post hl; simp [flushAll, BufferedBus.clean] at hl
+      · simp only [flushAll, BufferedBus.clean]; exact h1
 
 /-- the test at the head of every write unit's drain loop, with the facts that rebuild the relation afterwards -/
 theorem goFlush_sim (app : App) (hsm : app.instrs.length < 250) (a' : Arch) (from_ pc : Word) : ∀ (n i : Nat) (s : State),
@@ -821,7 +1024,7 @@ structure Ph (app : App) (s : State) (a : Arch) : Prop where
   retQ : 1 ≤ s.eus.length → ∀ x ∈ s.executeBus.queue, isRet x → s.executeBus.queue = [x]
   noRetBuf : ∀ e ∈ s.executeBus.buffer, ¬ isRet e.2
   seqs : Seqs app s a
-  k1 : s.eus.length ≤ 1 ∨ NoCond app
+  k1 : s.eus.length ≤ 1 ∨ NoCond app ∨ WideP s
 
 theorem connect_split {α : Type} (b : BufferedBus α) (c : Int) :
     ∃ moved, b.buffer = moved ++ (b.connect c).buffer ∧ (b.connect c).queue = b.queue ++ moved.map (·.2) := by
@@ -863,10 +1066,19 @@ theorem connected_ph (app : App) (s : State) (a : Arch) (hr : RelG app s a) : Ph
           exact absurd hrx (hnb e (by rw [hm1]; exact List.mem_append_left _ he))
       · intro e he
         exact hnb e (by rw [hm1]; exact List.mem_append_right _ he)
-  refine ⟨⟨n0, hpc, ?_⟩, ?_, hr.eus, hr.wus, ?_, ?_, ?_, ?_, ?_, by (show (s.executeBus.connect (s.cycles + 1)).queue.length ≤ 2); omega, hr.eqw, hr.pend, hr.l1d, hr.mode, hret.1, hret.2, ?_, hr.k1⟩
-  rotate_right
+  refine ⟨⟨n0, hpc, ?_⟩, ?_, hr.eus, hr.wus, ?_, ?_, ?_, ?_, ?_, by (show (s.executeBus.connect (s.cycles + 1)).queue.length ≤ 2); omega, hr.eqw, hr.pend, hr.l1d, hr.mode, hret.1, hret.2, ?_, ?_⟩
+  rotate_right 2
   · exact hr.seqs.mono rfl (fun r hmem => Or.inl (by simpa only [runners, connected, inside_connect] using hmem))
       (fun ec hec => by simpa only [connected, inside_connect] using hec)
+  · rcases hr.k1 with h1 | h1 | h1
+    · exact Or.inl h1
+    · exact Or.inr (Or.inl h1)
+    · have hc : s.executeBus.connect (s.cycles + 1) = { s.executeBus with queue := s.executeBus.queue ++ s.executeBus.buffer.map (·.2), buffer := [] } :=
+        connect_all _ _ (by rw [h1.xq, hr.xql]; simp only [List.length_nil]; have := h1.len; omega) h1.due
+      refine Or.inr (Or.inr ⟨by (show (s.executeBus.connect (s.cycles + 1)).buffer = []); rw [hc], ?_,
+        by (show (s.executeBus.connect (s.cycles + 1)).bufferLength = 2); rw [(connect_lengths _ _).2]; exact h1.bl⟩)
+      show BrHead (s.executeBus.connect (s.cycles + 1)).queue
+      rw [hc, h1.xq]; exact h1.br
   · have hrun : runners (connected s) = runners s := by
       simp only [runners, connected, inside_connect]
     refine ⟨by rw [hrun]; exact hf.chain, by rw [hrun]; exact hf.inRange, ?_, hf.clean, ?_, hf.duOk⟩
@@ -893,7 +1105,7 @@ theorem fetch_ph (app : App) (hp : ProgG app) (s s2 : State) (a : Arch) (h : Ph 
     obtain ⟨e1, e2, e3, e4⟩ := fetchCore_pcs app hp.small _ _ _ _ _ _ _ _ hf.clean hf.dlen hf.pcs hv
     exact ⟨⟨n0, hpc, ⟨hf.chain, hf.inRange, e1, e2, e3, hf.duOk⟩⟩, h.back, h.eus, h.wus, h.wbuf, h.wqk, h.wql, h.wbl,
       h.xql, h.xq, h.eqw, h.pend, by (show mmu'.l1d.lines = []); rw [e4]; exact h.l1d, h.mode, h.retQ, h.noRetBuf,
-      h.seqs.mono rfl (fun r hmem => Or.inl hmem) (fun ec hec => hec), h.k1⟩
+      h.seqs.mono rfl (fun r hmem => Or.inl hmem) (fun ec hec => hec), h.k1.imp id (Or.imp id (fun w => ⟨w.xb, w.br, w.bl⟩))⟩
 
 theorem decode_ph (app : App) (hp : ProgG app) (s s3 : State) (a : Arch) (h : Ph app s a) (hr : decodeCycle app s = .ok s3) :
     Ph app s3 a := by
@@ -930,7 +1142,7 @@ theorem decode_ph (app : App) (hp : ProgG app) (s s3 : State) (a : Arch) (h : Ph
         hchain.2 hin' hpcs' hv
       refine ⟨⟨n0, hpc, ⟨?_, ?_, ?_, hf.clean, by (show d'.bufferLength = 2); rw [e5]; exact hf.dlen,
           by (show du'.pendingBranchResolution = false); rw [e4]; exact hf.duOk⟩⟩,
-        h.back, h.eus, h.wus, h.wbuf, h.wqk, h.wql, h.wbl, h.xql, h.xq, h.eqw, h.pend, h.l1d, h.mode, h.retQ, h.noRetBuf, ?_, h.k1⟩
+        h.back, h.eus, h.wus, h.wbuf, h.wqk, h.wql, h.wbl, h.xql, h.xq, h.eqw, h.pend, h.l1d, h.mode, h.retQ, h.noRetBuf, ?_, h.k1.imp id (Or.imp id (fun w => ⟨w.xb, w.br, w.bl⟩))⟩
       rotate_right
       · refine h.seqs.mono rfl ?_ (fun ec hec => hec)
         intro r hmem
@@ -953,17 +1165,19 @@ theorem control_mid (app : App) (s : State) (a : Arch) (h : Ph app s a) : Mid ap
     (controlCycle s).executeBus.queue.length ≤ 2 ∧ (controlCycle s).eus.length = (controlCycle s).wus.length ∧
     (controlCycle s).cuPendings.items.length ≤ 1 ∧ (controlCycle s).mmu.l1d.lines = [] ∧ (controlCycle s).mode = .normal := by
   obtain ⟨n0, hpc, hf⟩ := h.front
-  obtain ⟨pushed, i1, i2, i3, fr⟩ := controlCycle_spec s h.pend
+  obtain ⟨pushed, i1, i2, i3, fr, hplen⟩ := controlCycle_spec s h.pend
   obtain ⟨b1, b2, b3, b4⟩ := issued_back i1 h.back
+  have hbuf := issued_buffer i1
+  have hbh := issued_branch_head i1
   have hrb := issued_ret i1 h.noRetBuf
-  simp only at b1 b2 b3 b4 hrb
+  simp only at b1 b2 b3 b4 hrb hbuf
   have hrun : runners (controlCycle s) = runners s := by
     simp only [runners, b4, List.append_assoc]
     rw [← List.append_assoc pushed, i2]
   refine ⟨⟨⟨n0, hpc, ⟨by rw [hrun]; exact hf.chain, by rw [hrun]; exact hf.inRange, ?_, by rw [fr.fu]; exact hf.clean,
       by rw [fr.decodeBus]; exact hf.dlen, by rw [fr.du]; exact hf.duOk⟩⟩, ?_, by rw [fr.eus]; exact h.eus, ?_, ?_, ?_, ?_, ?_, ?_,
       h.seqs.mono (issued_sid i1).1 (fun r hmem => Or.inl (by rw [hrun] at hmem; exact hmem)) (fun ec hec => by rw [fr.writeBus] at hec; exact hec),
-      by rw [fr.eus]; exact h.k1⟩,
+      ?_⟩,
     by rw [fr.wus]; exact h.wus, by rw [fr.writeBus, fr.wus]; exact h.wqk, by rw [fr.writeBus]; exact h.wql,
     by rw [b3]; exact h.xql, by rw [b2]; exact h.xq, by rw [fr.eus, fr.wus]; exact h.eqw, i3, by rw [fr.mmu]; exact h.l1d,
     by rw [fr.mode]; exact h.mode⟩
@@ -978,6 +1192,43 @@ theorem control_mid (app : App) (s : State) (a : Arch) (h : Ph app s a) : Mid ap
     rw [fr.eus] at hK
     exact ⟨h.retQ hK x hx hrx, rfl⟩
   · rw [fr.cycles]; exact hrb
+  · rcases h.k1 with h1 | h1 | h1
+    · exact Or.inl (by rw [fr.eus]; exact h1)
+    · exact Or.inr (Or.inl h1)
+    · have hbuf' : (controlCycle s).executeBus.buffer = pushed.map (fun r => (s.cycles + 1, r)) := by
+        rw [hbuf, h1.xb]; rfl
+      have hrem : s.executeBus.remainingToAdd = 2 := by
+        simp only [BufferedBus.remainingToAdd, h1.xb, List.length_nil, h1.bl]; rfl
+      have hbl' : (controlCycle s).executeBus.bufferLength = 2 := by
+        have := issued_bl i1; simp only at this; rw [this]; exact h1.bl
+      refine Or.inr (Or.inr ⟨?_, Or.inr (by rw [b2]; have := h.xq; omega), ?_, ?_, ?_, hbl'⟩)
+      · intro x hx hbx
+        rw [b2] at hx ⊢
+        obtain ⟨p1, p2, hsplit⟩ := List.append_of_mem hx
+        have hp1 := h1.br p1 x p2 hsplit hbx
+        subst hp1
+        simp only [List.nil_append] at hsplit
+        refine ⟨rfl, p2, hsplit, ?_⟩
+        have hb2 : BrHead (x :: p2) := by rw [← hsplit]; exact h1.br
+        exact brHead_cons hb2
+      · rw [hbuf', fr.cycles]
+        intro e he
+        simp only [List.mem_map] at he
+        obtain ⟨r, _, rfl⟩ := he
+        exact Int.le_refl _
+      · rw [hbuf', List.length_map]
+        rw [hrem] at hplen
+        have : max ((2 : Int) - 1) 0 = 1 := by decide
+        rw [this] at hplen
+        omega
+      · rw [hbuf']
+        have hmm : (pushed.map fun r => (s.cycles + 1, r)).map (·.2) = pushed := by
+          rw [List.map_map]; exact List.map_id' pushed
+        rw [hmm]
+        intro pre b post hl hb
+        have := hbh pre b post hl hb
+        have : pre.length = 0 := by omega
+        exact List.length_eq_zero_iff.mp this
 
 /-! ### the drain after a `ret` -/
 
@@ -1110,7 +1361,21 @@ theorem cycleM_simG (app : App) (hp : ProgG app) (a0 : Arch) (s s' : State) (a :
                   omega
                 · rw [wk.executeBus, hcyc]; exact hm5.retBuf
                 · exact hm5.seqs.mono wk.sid (fun r hmem => Or.inl (by simpa only [runners, wk.executeBus, wk.cuPendings, wk.controlBus] using hmem)) wk.wsub
-                · rw [wk.eus]; exact hm5.k1
+                · rcases hm5.k1 with h1 | h1 | h1
+                  · exact Or.inl (by rw [wk.eus]; exact h1)
+                  · exact Or.inr (Or.inl h1)
+                  · by_cases hK1 : s6.eus.length ≤ 1
+                    · exact Or.inl hK1
+                    · refine Or.inr (Or.inr ⟨?_, ?_, ?_, ?_, ?_⟩)
+                      · rw [wk.executeBus]
+                        rcases h1.drain with hd | hd
+                        · exact hd
+                        · have e1 : s6.eus.length = (controlCycle s3).eus.length := by rw [wk.eus, keep.eul]
+                          exact List.length_eq_zero_iff.mp (by omega)
+                      · rw [wk.executeBus, hcyc]; exact h1.due
+                      · rw [wk.executeBus]; exact h1.len
+                      · rw [wk.executeBus]; exact h1.br
+                      · rw [wk.executeBus]; exact h1.bl
           · simp only [afterEus, herr, if_true, pure, Except.pure, Except.ok.injEq, Prod.mk.injEq] at h
             obtain ⟨rfl, rfl⟩ := h
             exact ⟨k', a', hk', c, hc⟩
@@ -1131,24 +1396,22 @@ theorem cycleM_simG (app : App) (hp : ProgG app) (a0 : Arch) (s s' : State) (a :
             simp only [afterEus, Bool.false_eq_true, if_false, if_true, bind, Except.bind] at h
             have hwus5 : ∀ wu ∈ s5.wus, wu.co = .none := by rw [hfl.keep.wus]; exact c_wus
             obtain ⟨n4, _, hf4⟩ := hmid.front
-            have hinv5 : DrainInv from_ a'.ctx.Registers s5 := by
-              refine ⟨hwus5, hfl.back.nomem, ?_⟩
-              rw [List.filter_eq_self.mpr hfl.allKept]
-              exact hfl.back.regs.symm
+            have hinv5 : DrainInv from_ a'.ctx.Registers s5 := ⟨hwus5, hfl.nomem, hfl.regsT⟩
             have hsid4 : (controlCycle s3).ctx.sequenceID = 0 ∨ NoCond app := hmid.seqs.sid
             have hff5 : FFacts app s5 a' from_ a'.pc :=
-              ⟨hinv5, hfl.npc, rfl, hfl.back.mem, hfl.back.ratS, hfl.back.txS, hfl.back.ratA, hfl.back.txA,
+              ⟨hinv5, hfl.npc, rfl, hfl.mem, hfl.ratS, hfl.txS, hfl.ratA, hfl.txA,
                fun eu he => (hfl.eus eu he).2, by rw [hfl.keep.eul, hfl.keep.wus]; exact c_eqw,
                by rw [hfl.keep.wql]; exact c_wql, by rw [hfl.keep.wbl]; exact hmid.wbl, by rw [hfl.keep.xql]; exact c_xql,
                by rw [hfl.keep.decodeBus]; exact hf4.dlen,
                by rw [hfl.keep.mmu]; exact c_l1d, by rw [hfl.keep.fu]; exact hf4.clean, by rw [hfl.keep.ctx]; exact hsid4,
-               by rw [hfl.keep.eul]; exact hmid.k1, by rw [hfl.keep.wus, ← c_eqw]; exact hfl.k⟩
+               by rw [hfl.keep.eul, hfl.keep.xbl]; exact hmid.k1.imp id (Or.imp id (fun w => w.bl)),
+               by rw [hfl.keep.wus, ← c_eqw]; exact hfl.k⟩
             split at h
             · cases h
             · rename_i s6 h6
               unfold wusCycle at h6
               rw [List.range_eq_range'] at h6
-              obtain ⟨d6, k6⟩ := wus_drain_m1 from_ a'.ctx.Registers s5.wus.length 0 s5 s6 (by omega) hinv5 hfl.allKept h6
+              obtain ⟨d6, k6⟩ := wus_drain_m1 from_ a'.ctx.Registers s5.wus.length 0 s5 s6 (by omega) hinv5 hfl.qKept h6
               have hff6 := hff5.keep d6 k6
               simp only [pure, Except.pure, Except.ok.injEq] at h
               have hev := congrArg Prod.snd h
